@@ -39,32 +39,30 @@ def run_impl(cases: List[dict], nproc: int = NCPU, timeout: int = 1800, src: Opt
     return out  # type: ignore
 
 
-def explore(base_case: dict, budget: int, max_depth: int = 10 ** 9, src: Optional[str] = None) -> Tuple[List[dict], List[dict], bool]:
-    """Stateless exhaustive exploration of the schedules of one recorder program on the REAL code.
+def explore_many(bases: List[dict], budget: int, src: Optional[str] = None,
+                 timeout: int = 3000) -> List[Tuple[List[dict], List[dict], bool]]:
+    """Stateless exhaustive exploration of the schedules of each recorder program on the REAL code (breadth first, up to
+    `budget` runs per program): run with a schedule prefix, read back the executed trace and the decision indices at
+    which both threads were enabled, branch on each such index beyond the prefix.  One worker process per program, in
+    parallel.  Returns per program (cases, results, complete); each case carries the executed trace as its schedule."""
+    def work(base):
+        p = subprocess.run([PY, str(VERIF / "vlib" / "logger_worker.py")],
+                           input=json.dumps([dict(mode="explore", base=base, budget=budget)]),
+                           capture_output=True, text=True,
+                           env=impl_env(dict(PYTHONPATH=src) if src else None), timeout=timeout, cwd="/")
+        if p.returncode != 0:
+            raise RuntimeError("logger_worker (explore) failed: " + p.stderr[-1500:])
+        r = json.loads(p.stdout)[0]
+        return [dict(base, sched=x["trace"]) for x in r["explored"]], r["explored"], r["complete"]
 
-    Runs the case with a schedule prefix, reads back the executed trace and the decision indices at which
-    both threads were enabled, and branches on each such index beyond the prefix.  Returns
-    (cases, results, complete)."""
-    cases: List[dict] = []
-    results: List[dict] = []
-    frontier: List[List[int]] = [[]]
-    complete = True
-    while frontier:
-        if len(cases) >= budget:
-            complete = False
-            break
-        batch = frontier[:max(1, min(len(frontier), budget - len(cases), 256))]
-        frontier = frontier[len(batch):]
-        bc = [dict(base_case, sched=p) for p in batch]
-        rs = run_impl(bc, src=src)
-        for p, c, r in zip(batch, bc, rs):
-            c = dict(c, sched=r["trace"])     # the full executed trace IS the schedule
-            cases.append(c)
-            results.append(r)
-            for i in r["both"]:
-                if i >= len(p) and i < max_depth:
-                    frontier.append(r["trace"][:i] + [1 - r["trace"][i]])
-    return cases, results, complete
+    if not bases:
+        return []
+    with ThreadPoolExecutor(min(NCPU, len(bases))) as ex:
+        return list(ex.map(work, bases))
+
+
+def explore(base_case: dict, budget: int, src: Optional[str] = None) -> Tuple[List[dict], List[dict], bool]:
+    return explore_many([base_case], budget, src=src)[0]
 
 
 # ---- spec oracle, evaluated on what the real code wrote (independent of the Coq model) -------------------
@@ -137,7 +135,7 @@ def coq_sched(s: List[int]) -> str:
 
 
 HEADER = """From Coq Require Import ZArith List Bool.
-From Logr Require Import Gen.LoggerConsts Model.Formats Model.Logger.
+From Logr Require Import Gen.LoggerConsts Model.Formats Model.Logger Model.LoggerFixed.
 Import ListNotations. Open Scope Z_scope.
 Fixpoint zl_eqb (a b : list Z) : bool :=
   match a, b with [], [] => true | x :: r, y :: s => (x =? y) && zl_eqb r s | _, _ => false end.
@@ -146,7 +144,8 @@ Fixpoint tl_eqb (a b : list tid) : bool :=
 Definition out_files (d : dstate) : list Z :=
   Z.of_nat (length (d_files d)) ::
   flat_map (fun f => [Z.of_nat (f_session f); Z.of_nat (f_sub f); Z.of_nat (length (f_msgs f))] ++ map m_id (f_msgs f)) (d_files d).
-(* first element: the ghost flag g_stale (the harness recomputes it from the real run on its own) *)
+(* first element: the ghost flag g_stale = stale write_finished.set() (the defect fixed by 510a13f; proved impossible
+   in the current model, recomputed from the real run by the harness on its own) *)
 Definition out (s : state) : list Z :=
   (if g_stale s then 1 else 0) ::
   match s_crash s with
@@ -156,8 +155,8 @@ Definition out (s : state) : list Z :=
 (* case = (configs, program, the trace the real scheduler executed, the real observable output) *)
 Definition check_case (c : list cfg * list op * list tid * list Z) : bool :=
   let '(cfgs, prog, sched, exp) := c in
-  let s := run cfgs prog sched in
-  zl_eqb (out s) exp && tl_eqb (trace cfgs prog sched) sched && (crashed s || finished s).
+  let s := runF cfgs prog sched in
+  zl_eqb (out s) exp && tl_eqb (traceF cfgs prog sched) sched && (crashed s || finished s).
 """
 
 
